@@ -267,7 +267,11 @@ func (p *recProposer) Propose(ctx context.Context, duty *beaconblockproposer.Dut
 		inv.EndStep = simrt.Step()
 		return
 	}
-	simrt.Sleep(ctx, 500*time.Millisecond, "rec/propose")
+	d := 500 * time.Millisecond
+	if p.r.Plan.ProposeTakes > 0 {
+		d = p.r.Plan.ProposeTakes // auction, unblinding and a slow node can make a proposal take seconds
+	}
+	simrt.Sleep(ctx, d, "rec/propose")
 	inv.EndStep = simrt.Step()
 }
 
@@ -602,6 +606,14 @@ func Run(ctx context.Context, p *Plan, hooks *Hooks) *Record {
 		syncDomainType := DomainSyncCommittee
 		rec.Signer.Fault = func(r *SignReq) (string, time.Duration) {
 			if r.KeyIndex == p.SyncZeroSig && r.Method == "SignGenericMulti" && len(r.Domain) == 32 && string(r.Domain[:4]) == string(syncDomainType[:]) {
+				return "zero", 0
+			}
+			return "", 0
+		}
+	} else if p.ContribZero {
+		dt := DomainContributionAndProof
+		rec.Signer.Fault = func(r *SignReq) (string, time.Duration) {
+			if r.KeyIndex == p.ContribZeroSig && r.Method == "SignGenericMulti" && len(r.Domain) == 32 && string(r.Domain[:4]) == string(dt[:]) {
 				return "zero", 0
 			}
 			return "", 0
